@@ -128,6 +128,41 @@ func runSequence(t *rapid.T, backend vkit.Backend) {
 				}
 			}
 		},
+		"store-unserialisable": func(t *rapid.T) {
+			// a message that passes the back end's validation but cannot be
+			// serialised (a string field holding invalid UTF-8): the store may fail,
+			// and a failed store must leave the entry as it was (present with its
+			// old value, or absent); the invariant below checks exactly that
+			typ, id := pickType(), pickID()
+			k := typ + "/" + id
+			msg := mk(typ, id, rapid.SampledFrom([]int{0, 3, 40}).Draw(t, "size"), "bad")
+			bad := "bad-\xff\xfe-" + fmt.Sprint(len(shape))
+			switch m := msg.(type) {
+			case *types.NodeCredentials:
+				m.WrappingKeyId = bad
+			case *types.NodeInformation:
+				m.NodeId = bad
+			case *types.RootCertificates:
+				m.WrappingKeyId = bad
+			case *types.ServerLedActivationToken:
+				m.WrappingKeyId = bad
+			}
+			var err error
+			if pv, _ := vkit.Guard(func() { err = st.Store(ctx, msg) }); pv != nil {
+				fail("store-unserialisable-panicked", "store of an unserialisable %s panicked: %v", k, pv)
+				return
+			}
+			_, existed := model[k]
+			shape = append(shape, fmt.Sprintf("store-unserialisable %s (existed=%v) -> err=%v", k, existed, err != nil))
+			if err == nil {
+				model[k] = proto.Clone(msg)
+				return
+			}
+			flags["failed-store"] = true
+			if existed {
+				flags["failed-store-over-existing-entry"] = true
+			}
+		},
 		"load": func(t *rapid.T) {
 			typ, id := pickType(), pickID()
 			k := typ + "/" + id
@@ -271,6 +306,17 @@ func runSequence(t *rapid.T, backend vkit.Backend) {
 					fail("invariant-load", "entry %s does not load back as stored (err=%v)", k, err)
 				}
 			}
+			// ... and every entry the model does not hold is reported as not found
+			for _, typ := range typeNames {
+				for _, id := range ids {
+					if _, ok := model[typ+"/"+id]; ok {
+						continue
+					}
+					if err := st.Load(ctx, blank(typ, id)); err == nil || !errors.Is(err, nodeenrollment.ErrNotFound) {
+						fail("invariant-absent", "absent entry %s/%s: load returned %v, want ErrNotFound", typ, id, err)
+					}
+				}
+			}
 			for _, typ := range typeNames[:3] {
 				got, err := st.List(ctx, nilOf(typ))
 				if err != nil {
@@ -289,7 +335,7 @@ func runSequence(t *rapid.T, backend vkit.Backend) {
 			}
 		},
 	})
-	nontrivial := flags["load-after-overwrite"] || flags["list-after-remove"] || flags["same-id-two-types"]
+	nontrivial := flags["load-after-overwrite"] || flags["list-after-remove"] || flags["same-id-two-types"] || flags["failed-store-over-existing-entry"]
 	var fl []string
 	for k := range flags {
 		fl = append(fl, k)
